@@ -3,9 +3,9 @@
 #  1. the demonstration passes on the clean tree, 2. the patch applies, the repository's own
 #  test suite still passes with it, 3. the demonstration fails with it.
 export GOFLAGS=-mod=mod GOPROXY=off GOSUMDB=off GOTOOLCHAIN=local
-IN=/verif/seeded/_incoming
+IN=${IN:-/verif/seeded/_incoming}
 list="$@"
-[ -z "$list" ] && list=$(cd $IN && ls -d C*/[ab])
+[ -z "$list" ] && list=$(cd $IN && ls -d C*/[a-z])
 for v in $list; do
   d=$IN/$v
   WT=/tmp/seedwt_$$
